@@ -40,7 +40,7 @@ def save_meta(name, m):
 
 def cmd_import(pid):
     src = os.path.join(MUT, pid, "_seeded")
-    for d in sorted(os.listdir(src)):
+    for d in sorted(x for x in os.listdir(src) if os.path.isdir(os.path.join(src, x))):
         name = "%s-%s" % (pid, d)
         dst = os.path.join(SEEDED, name)
         os.makedirs(dst, exist_ok=True)
